@@ -134,6 +134,8 @@ def main():
     t_start = time.time()
     n = 0
     seen = []
+    cov = common.SourceCoverage(pid)       # which lines of the anchored source files the correspondence exercises
+    cov.start()
     for case in mod.cases(tier, seed):
         process(case, sample=(n % 97 == 0 or n < 2))
         seen.append(case)
@@ -143,6 +145,8 @@ def main():
         if time.time() - t_start > t_budget:
             run.notes.append(f"time budget {t_budget}s reached after {n} cases")
             break
+
+    cov.stop(run)
 
     # ---- 2b. are the hypotheses of the property's theorems met by the inputs that were just tested?
     if hasattr(mod, "post") and not st.broken:
